@@ -909,3 +909,44 @@ func EmitSMT(hyps []*Term, goal *Term, wantModel bool) string {
 	}
 	return b.String()
 }
+
+// alphaKey: a string that is equal for alpha-equivalent terms (bound variables renamed by binder depth and position).
+func alphaKey(t *Term) string {
+	var b strings.Builder
+	alphaWrite(&b, t, map[string]string{}, 0)
+	return b.String()
+}
+
+func alphaWrite(b *strings.Builder, t *Term, ren map[string]string, depth int) {
+	switch {
+	case t.Op == "var":
+		if r, ok := ren[t.Name]; ok {
+			b.WriteString(r)
+		} else {
+			b.WriteString(t.Name)
+		}
+	case t.Op == "lit":
+		b.WriteString(t.Name)
+	case t.Op == "forall" || t.Op == "exists":
+		r2 := make(map[string]string, len(ren)+len(t.Bound))
+		for k, v := range ren {
+			r2[k] = v
+		}
+		b.WriteString("(" + t.Op + " (")
+		for i, v := range t.Bound {
+			n := fmt.Sprintf("?%d.%d", depth, i)
+			r2[v.Name] = n
+			b.WriteString(n + ":" + v.S.Name + " ")
+		}
+		b.WriteString(") ")
+		alphaWrite(b, t.Args[0], r2, depth+1)
+		b.WriteString(")")
+	default:
+		b.WriteString("(" + t.Op + ":" + t.Name)
+		for _, a := range t.Args {
+			b.WriteString(" ")
+			alphaWrite(b, a, ren, depth)
+		}
+		b.WriteString(")")
+	}
+}
